@@ -38,6 +38,11 @@ ThmAscending == Ascending(EncodeRoot(Doc, <<>>, EO))
 Emit == (DoEmit /\ Len(hist) = MaxHist) =>
    PrintT(ToJson([f |-> "det", hist |-> hist, x |-> Join(RenderCompact(EncodeRoot(Doc, <<>>, EO), EO)),
                   j |-> Join(JsonOf(Doc, FALSE)), js |-> Join(JsonOf(Doc, TRUE))]))
+\* ten nested levels, three sub-elements at each (the encoder keeps per-level work areas)
+RECURSIVE DeepVal(_)
+DeepVal(n) == IF n = 0 THEN VS(<<"x">>) ELSE VM((<<"a">> :> DeepVal(n - 1)) @@ (<<"b">> :> VS(<<"B">>)) @@ (<<"c">> :> VM((<<"p">> :> VS(<<"1">>)) @@ (<<"q">> :> VS(<<"2">>)) @@ (<<"r">> :> VS(<<"3">>)))))
+cKeysDeep == {<<"b">>, <<"d">>}
+cValsDeep == {DeepVal(10), DeepVal(9), VS(<<"x">>)}
 cKeys == {<<"-", "a">>, <<"-", "a", "-", "b">>, <<"-", "d">>, <<"b">>, <<"c">>, <<"b", "b">>, TKey}     \* (with the text key: mixed content; -a is a proper prefix of -a-b and '-' sorts before '=')
 cVals == {VS(<<>>), VS(<<"x", "%", "d">>), VS(<<"<", "&", "%", "s">>), VS(<<"\\", "u", "0", "0", "3", "c">>), VM((<<"-", "z">> :> VS(<<"1">>)) @@ (<<"y">> :> VL(<<VS(<<"2">>), VS(<<>>)>>)))}
 cValsQ == {VS(<<>>), VS(<<"<", "&", "%", "s">>), VS(<<"\\", "u", "0", "0", "3", "c">>), VM((<<"-", "z">> :> VS(<<"1">>)) @@ (<<"y">> :> VL(<<VS(<<"2">>), VS(<<>>)>>)))}
